@@ -18,7 +18,7 @@ UNITS = {
     "mapper": {"tpl": "mapper.rs", "props": ["C16"],
                "fn_props": {**PRELUDE_FNS, ".*": ["C16"]}},
     "lexer": {"tpl": "lexer.rs", "props": ["C16", "C09"],
-              "fn_props": {**PRELUDE_FNS, "get_line|get_newline_before|get_err_pos|lemma_.*": ["C16", "C09"]},
+              "fn_props": {**PRELUDE_FNS, "get_line|get_newline_before|get_err_pos|lemma_.*": ["C16", "C09"], "preprocess|note_cite": ["C16", "C09"]},
               "assumes": ["unit lexer: precondition `wf` (newline positions strictly increasing, inside the text, text at most isize::MAX bytes) is what LexerHelper::new establishes; `new` itself (char_indices over a &str) is only under the BOUNDED Kani unit b_lexer_new",
                           "unit lexer: rewrite R13 (`for (i, v) in <place>.iter().enumerate()` -> index loop; <place> is borrowed immutably by the original loop)"]},
     "numbers": {"tpl": "numbers.rs", "props": ["C14", "C09", "C12", "C17", "C01", "C05", "C11"],
